@@ -16,7 +16,7 @@ sensitivity: (bin/mutant C03 '<sed>@<file>', quick tier; all KILLED)
 sensitivity:  s/0x0003 | 0x000B => {/0x0003 => {/@src/xlsb/cells_reader.rs            (the repaired defect re-introduced)
 sensitivity:  s/(b \\& 0x7F) as u16 + (((self.read_u8()? \\& 0x7F) as u16) << 7)/(b \\& 0x7F) as u16 + (((self.read_u8()? \\& 0x7F) as u16) << 8)/@src/xlsb/mod.rs
 sensitivity:  s/len += ((b \\& 0x7F) as usize) << (7 \\* i);/len += ((b \\& 0x7F) as usize) << (8 * i);/@src/xlsb/mod.rs
-sensitivity:  s/for i in 1..4 {/for i in 1..3 {/@src/xlsb/mod.rs                           (4-byte sizes; thorough tier only)
+sensitivity:  s/for i in 1..4 {/for i in 1..3 {/@src/xlsb/mod.rs                           (4-byte sizes)
 sensitivity:  s/let v = (read_i32(\\&self.buf\\[8..12\\]) >> 2) as i64;/let v = (read_u32(\\&self.buf[8..12]) >> 2) as i64;/@src/xlsb/cells_reader.rs  (negative RK integers)
 sensitivity:  s/0x0004 | 0x000A => DataRef::Bool/0x0004 => DataRef::Bool/@src/xlsb/cells_reader.rs
 sensitivity:  s/0x0092 => return Ok(None), \\/\\/ BrtEndSheetData/0x0024 => return Ok(None),/@src/xlsb/cells_reader.rs   (a filler ends the sheet)
@@ -26,7 +26,7 @@ sensitivity:  s/let v = if d100 { v \\/ 100.0 } else { v };/let v = if d100 { v 
 LEVEL = "model_checking"
 
 QUICK = ["q_kinds", "q_pos", "q_ign", "q_pre"]
-THOROUGH = ["t_kinds", "t_pos", "t_ign", "t_pre", "t_big"]
+THOROUGH = ["t_kinds", "t_pos", "t_span", "t_ign", "t_pre", "t_big"]
 
 
 def run(ctx):
@@ -68,8 +68,8 @@ def run(ctx):
             n = ctx.replay("xlsb", r["tags"]["REPLAY"], timeout=ctx.pick(300, 2400)).get("evaluated", 0)
         per[prof] = {"states": r["distinct"], "sheets": n}
     if not ctx.quick:
-        s = ctx.tlc("xlsb", "MC_XlsbSheet", "MC_XlsbSheet_sim.cfg", workers=6, simulate=5000, depth=60,
-                    timeout=600, xmx="6g", name="MC_XlsbSheet_sim")
+        s = ctx.tlc("xlsb", "MC_XlsbSheet", "MC_XlsbSheet_sim.cfg", workers=6, simulate=1000, depth=60,
+                    timeout=240, xmx="6g", name="MC_XlsbSheet_sim")
         n = 0
         if "REPLAY" in s["tags"]:
             n = ctx.replay("xlsb", s["tags"]["REPLAY"], timeout=1200).get("evaluated", 0)
